@@ -24,9 +24,11 @@ func runGroup(cs []*Case, rounds int) {
 		ms = append(ms, parMember{c, fresh})
 		callers += par
 	}
-	bad, crash := askChild(&parReq{Group: ms, Rounds: rounds})
+	q := &parReq{Group: ms, Rounds: rounds}
+	bad, crash := askChild(q)
 	r.Eval("cache:parallel-different-transactions", "")
 	rep := map[string]interface{}{"group": cs}
+	raceNote(q, rep)
 	switch {
 	case crash != "":
 		r.PropFail("parallel-txs-crash", fmt.Sprintf("%d transaction objects with %d concurrent callers in all, each issuing the digest requests of its own transaction: %s", len(cs), callers, crash), rep)
@@ -69,9 +71,11 @@ func runMultis(ms []*Multi, rounds int) {
 		bs = append(bs, b)
 		inputs += len(b.Idx)
 	}
-	bad, crash := askChild(&parReq{Multis: bs, Rounds: rounds})
+	q := &parReq{Multis: bs, Rounds: rounds}
+	bad, crash := askChild(q)
 	r.Eval("multi:parallel-inputs", "")
 	rep := map[string]interface{}{"multi": ms}
+	raceNote(q, rep)
 	switch {
 	case crash != "":
 		r.PropFail("parallel-verify-crash", fmt.Sprintf("%d transactions, %d inputs verified through script.VerifyTxScript by one goroutine each: %s", len(ms), inputs, crash), rep)
